@@ -32,15 +32,7 @@ FUNCTION = "flox.aggregations._initialize_aggregation (blueprints of flox/aggreg
 # Val and its operations
 # ---------------------------------------------------------------------------------------------------
 
-Val = z3.Datatype("Val")
-Val.declare("fin", ("r", z3.RealSort()))
-Val.declare("pinf")
-Val.declare("ninf")
-Val.declare("nan")
-Val = Val.create()
-fin, pinf, ninf, nan = Val.fin, Val.pinf, Val.ninf, Val.nan
-is_fin, is_pinf, is_ninf, is_nan = Val.is_fin, Val.is_pinf, Val.is_ninf, Val.is_nan
-rv = Val.r
+from ..pyvc.valsort import Val, fin, is_fin, is_nan, is_ninf, is_pinf, nan, ninf, pinf, rv  # noqa: E402
 
 
 def v_add(a, b):
